@@ -224,6 +224,12 @@ class Sim:
             if self.aborted:
                 raise SimAbort()
             st.target(*st.args, **st.kwargs)
+            # a thread that has returned from its body is still alive for a
+            # moment (CPython: until the bootstrap code has released its
+            # state lock): is_alive() and join() see it until it is next
+            # scheduled
+            st.tag = ('thread.exiting',)
+            self._switch(st)
         except SimAbort:
             pass
         except BaseException as ex:     # noqa: a thread dying is an event
